@@ -5,7 +5,7 @@ CONSTANTS
   Seeds = {1}
   PermOf <- MCPerm
   Scores = {1, 2}
-  NReps <- MCNReps
+  NReps <- MCNRepsQuick
   IndexBySortedId = TRUE
   CutAtN = FALSE
   CanonicalFirst = TRUE
